@@ -31,12 +31,15 @@ CLAIMED = {
         technique='contract-based deductive verification: Lean 4 + Mathlib theorems generated from the AST of the deriv tables; symbolic execution of the real _derivative bodies on tensors of symbols with z3 discharging the polynomial identities (bounded shapes)'),
     'C05': dict(
         design='4.5 and 9.5',
-        text='Kernel. Unbounded deductive proofs (arrays of any length): UniqueMask.evalf, UniqueInverse.evalf, and numeric.compress_indices (row-pointer form: length+1 entries from 0 to nnz, monotone, '
-             'c[i] <= k < c[i+1] <=> indices[k] == i, each c[i] the searchsorted insertion point; ValueError exactly for out-of-bounds or non-monotone input) with the prefix-sum, zero-run and offset facts '
-             'proved by explicit base+step induction obligations. BOUNDED (rank <= 3): Inflate._assparse flat dofmap position = row-major index; compress_indices additionally by exhaustive native enumeration.',
-        note='Outside unless listed under ext-c05 in DESIGN 9.5: the structural recursion _assparse over the other node classes and "scatter of the listed values reproduces the dense array". '
-             'Trusted: numpy externals as exact axioms (nonzero, repeat with block offsets, out= stores through slice views, cumsum recurrence, injective fancy store), cross-checked in native/axioms.py.',
-        technique='contract-based deductive verification (ast->z3) with induction lemmas as explicit obligations; one bounded native enumeration kept as a cross-check'),
+        text='Unbounded deductive proofs (arrays of any length): UniqueMask.evalf, UniqueInverse.evalf, numeric.compress_indices (row-pointer form, each c[i] the searchsorted insertion point, ValueError exactly for invalid '
+             'input; prefix-sum, zero-run and offset facts by explicit base+step induction obligations), evaluable.unique (strictly increasing, unique[inverse[k]] = array[k], every value occurs), evaluable.as_csr (compress_indices '
+             'precondition, monotone row pointer, strictly increasing columns per row), function.as_coo/as_csr. BOUNDED (rank <= 3, chunk counts fixed; lengths, indices and values symbolic): Array.assparse -- every chunk entry lands in the '
+             'slot that carries exactly its index tuple after the divmod unravel, indices inside the shape, index tuples strictly increasing lexicographically; _assparse of Array (default), InsertAxis, Transpose, Diagonalize, Ravel, '
+             'Unravel, Sum, Zeros, Add, Multiply and Inflate: GIVEN children whose chunks denote them, scattering the returned chunks into zeros equals the node\'s dense value at every position (fixed axis lengths 2-4). '
+             'numeric.accumulate and compress_indices additionally by exhaustive native enumeration.',
+        note='LoopSum/LoopConcatenate._assparse (need loop semantics) are OUTSIDE. The dense meaning of the IR constructors is a trusted table (same reading as C04/C06), cross-checked against the real nodes on random arrays '
+             '(native/axioms_c05.py). numpy externals are exact axioms (nonzero via a counting function, stable argsort, repeat with block offsets, out= stores through slice views, cumsum, injective fancy store).',
+        technique='contract-based deductive verification (ast->z3) with induction lemmas as explicit obligations; bounded positional array model for the _assparse rules; two bounded native enumerations as cross-checks'),
     'C06': dict(
         design='4.6',
         text='Deductive proof, per _intbounds_impl rule in evaluable.py (42 functions: 39 array rules, 2 tuple rules, _ismonotonic): for all child ranges satisfying the '
@@ -136,9 +139,10 @@ CLAIMED = {
         design='4.16 and 9.5',
         text='Sequential kernel (no schedules): parallel.range.__next__ under its lock; parallel._wait / _fork (bounded nprocs = 3: parent waits for every child and raises if any failed, kills children and re-raises when the block raises; '
              'child runs the block under maxprocs(1) and exits 0/1 without returning) / fork / maxprocs / shempty / shzeros / ctxrange; BOUNDED configurations of the code generator _BlockBuilder (exec, assign_to, assert_true, raise_, if_): '
-             'every emitted statement that mentions a shared array is nested in `with lock` of all its shared variables; ground frame check of _pyast `variables`.',
-        note='All interleavings, visibility of shared memory and kill faults are OUTSIDE: this family is silent on concurrency. Assumed: Lock gives mutual exclusion, RawValue is sequentially consistent. See DESIGN 9.5 (ext-c16) for the '
-             'shared-array registration contract.',
+             'every emitted statement that mentions a shared array is nested in `with lock` of all its shared variables (exec, assign_to, assert_true, raise_, if_, array_copy/iadd/imul/add_at/fill_zeros, eval, assert_equal); '
+             '_BlockTreeBuilder.new_empty_array_for_evaluable (bounded block-id depth <= 3): an array is shared exactly when the run is parallel and the array lives at loop depth 0, it then has its own lock created before the allocation and is allocated through shempty; '
+             'the parallel section of compile(): ctxrange wraps only outermost loops and only when maxprocs > 1; the _pyast statement printer read back by CPython\'s parser (the generated `with lock:` really encloses its statements); Topology._locate shared bookkeeping (bounded); ground frame check of _pyast `variables`.',
+        note='All interleavings, visibility of shared memory and kill faults are OUTSIDE: this family is silent on concurrency. Assumed: Lock gives mutual exclusion, RawValue is sequentially consistent. Later READERS of a shared array are unlocked and safe only by block order, which is not under contract (noted in NOT_COVERED).',
         technique='contract-based verification: symbolic execution of the real methods with lock/event ghost state and OS externals as contracts; syntactic frame check on _pyast'),
     'C17': dict(
         design='4.17 and 9.5',
